@@ -69,10 +69,13 @@ def run_plan(ctx, program, history, plan, pids, tag):
     ctx.count("fault_runs")
     simple = not (kinds_of(program) & {"with", "map"}) and not any(d.get("options") or d.get("default_options") for d in program["datasets"].values())
     fired_any = False
+    nocache_steps = {i for i in range(len(history)) if (hash(spec_hash([program, i])) % 4) == 0} if "*" not in _reads(program) else set()
     mentioned = mentioned_keys(program)
     absorbed_at = None
     with Tap(on_event=on_event, keep=False):
         for step, o in enumerate(history):
+            if nocache_steps and step in nocache_steps:
+                o = U.set_path(o, "LABREA.CACHE.DISABLED", True)
             n_raised = len(log.raised)
             n_stores = len(stores)
             err = None
@@ -136,13 +139,26 @@ def run_plan(ctx, program, history, plan, pids, tag):
                                 ctx.violation("stored-during-failed-evaluation", f"dataset {did} has a stored value although its {kindp} always raises", Ws)
                                 return
             # steps in which no fault fired: same outcome as a fault-free, cache-free instance
-            if injected and err is None:
+            surfaced = set(map(id, chain(err))) if err is not None else set()
+            if injected and any(id(x) not in surfaced for x in injected):
                 # a fall-back (coalesce / switch default) absorbed a transient fault and its *successful* value may
                 # legitimately have been stored by an enclosing cache: nothing failed at the boundary, so the
                 # "failed evaluation stores nothing" clause says nothing about the rest of this history
                 absorbed_at = n_stores if absorbed_at is None else absorbed_at
                 ctx.count("faults_absorbed_by_fallback")
             if not injected and absorbed_at is None:
+                # a failure the eager reference semantics predicts (missing option, unmatched switch / case, value
+                # outside its domain) must surface as a failure, and a predicted value must not turn into one
+                from ..ref import Ref
+
+                try:
+                    rexp = Ref(program).run(o)
+                except RecursionError:
+                    rexp = None
+                if rexp is not None and (rexp[0] == "err") != (err is not None):
+                    ctx.violation("failure-swallowed-or-invented", f"step {step}: evaluate() gave {short(got)} but the eager reference semantics gives {short(rexp)}", Ws)
+                    return
+                ctx.count("outcomes_compared_with_reference")
                 clean = build(program)
                 with labrea.cache.disabled():
                     exp = observe(clean.root.evaluate, copy.deepcopy(o))
@@ -168,6 +184,16 @@ def run_plan(ctx, program, history, plan, pids, tag):
             ctx.cover("fault_kinds", pids.get(p, "?"))
             ctx.cover("fault_classes", cls)
         ctx.sample({"program": program, "plan": {k: list(v) for k, v in plan.items()}, "history": history[:2]}, limit=2)
+
+
+def _reads(program):
+    from ..ref import Ref
+
+    r = Ref(program)
+    out = set(r.may_read(program["root"]))
+    for did in program["datasets"]:
+        out |= r.may_read({"k": "ds", "id": did})
+    return out
 
 
 def dataset_of(pid):
